@@ -22,7 +22,8 @@ type frameState struct {
 	cells  map[*value]bool
 	maps   map[*mapv]bool
 	events []frameEvent
-	locks  int
+	locks  int // read or write locks held
+	wlocks int // write locks held
 	owner  map[*value]string // description of the owning object (for reports)
 
 	protected      map[*value]bool
@@ -179,22 +180,29 @@ func registerFrame(m *Machine) {
 			if fs == nil || !fs.cells[addr] {
 				return
 			}
-			fs.events = append(fs.events, frameEvent{Site: m.where(), Changed: !shallowSame(old, nw), Locked: fs.locks > 0, What: fs.owner[addr]})
+			fs.events = append(fs.events, frameEvent{Site: m.where(), Changed: !shallowSame(old, nw), Locked: fs.wlocks > 0, What: fs.owner[addr]})
 		}
 		m.Hooks.OnMap = func(m *Machine, mp *mapv, fr *frame) {
 			fs := m.frame()
 			if fs == nil || !fs.maps[mp] {
 				return
 			}
-			fs.events = append(fs.events, frameEvent{Site: m.where(), Changed: true, Locked: fs.locks > 0, What: "map"})
+			fs.events = append(fs.events, frameEvent{Site: m.where(), Changed: true, Locked: fs.wlocks > 0, What: "map"})
 		}
 		m.Scratch["lockHook"] = func(kind string, mu *value, fr *frame) {
 			fs := m.frame()
 			if fs == nil {
 				return
 			}
+			// a read lock admits other readers: it protects reads, not writes
 			switch kind {
-			case "Lock", "RLock":
+			case "Lock":
+				fs.locks++
+				fs.wlocks++
+			case "Unlock":
+				fs.locks--
+				fs.wlocks--
+			case "RLock":
 				fs.locks++
 			default:
 				fs.locks--
@@ -223,7 +231,7 @@ func registerFrame(m *Machine) {
 			if prevStore != nil {
 				prevStore(m, addr, old, nw, fr)
 			}
-			if fs := m.frame(); fs != nil && fs.protected[addr] && fs.locks == 0 {
+			if fs := m.frame(); fs != nil && fs.protected[addr] && fs.wlocks == 0 {
 				fs.unlockedWrites = append(fs.unlockedWrites, m.where())
 			}
 		}
@@ -232,7 +240,7 @@ func registerFrame(m *Machine) {
 				prevMap(m, mp, fr)
 			}
 			fs := m.frame()
-			if fs == nil || fs.locks > 0 {
+			if fs == nil || fs.wlocks > 0 {
 				return
 			}
 			for c := range fs.protected {
